@@ -187,6 +187,8 @@ class C20(Prop):
         # how the file is named on the command line: every style prints that name
         forms = [rnd.choice(["plain", "plain", "plain", "dot", "abs", "updown"]) for _ in range(n)]
 
+        colors = [rnd.choice([None, None, "always", "always", "never", "auto"]) for _ in range(n)]
+
         def arg_of(i):
             cname, name = cases[i][0], "f%d.lua" % i
             return {"plain": name, "dot": "./" + name, "abs": os.path.join(proj, cname, name),
@@ -198,8 +200,10 @@ class C20(Prop):
             cname = cases[i][0]
             outs = {}
             for st in STYLES:
+                # the machine-readable styles are the same bytes whatever --color says
+                color = ["--color", colors[i]] if st in ("json", "json2") and colors[i] else []   # (--luacheck prints parse errors as coloured rich blocks)
                 rc, out, err = cli.run_selene(os.path.join(proj, cname),
-                                              cli.style_args(st) + ["--num-threads", "1", "--no-summary", arg_of(i)])
+                                              cli.style_args(st) + color + ["--num-threads", "1", "--no-summary", arg_of(i)])
                 outs[st] = (rc, out, err)
             return outs
 
